@@ -53,6 +53,84 @@ Theorem C09_cmp_sparse_same_refines : forall c a a' b b', Rv a a' -> Rv b b' -> 
 Proof. exact cmp_sparse_same_refines. Qed.
 Print Assumptions C09_cmp_sparse_same_refines.
 
+Theorem C09_cmp_sparse_refines : forall c a a' b b', Rv a a' -> Rv b b' -> (length a = 1%nat -> b <> []) ->
+  rrel eq (cmp_sparse c a b) (np_cmp c a' b').
+Proof. exact cmp_sparse_refines. Qed.
+Print Assumptions C09_cmp_sparse_refines.
+Theorem C09_cmp_scalar_refines : forall c a a' k k', Rv a a' -> k == k' -> rrel eq (cmp_scalar c a k) (np_cmp c a' [k']).
+Proof. exact cmp_scalar_refines. Qed.
+Print Assumptions C09_cmp_scalar_refines.
+Theorem C09_cmp_array_refines : forall c a a' b b', Rv a a' -> Forall2 Qeq b b' -> b <> [] -> length b <> 1%nat ->
+  rrel eq (cmp_array c a b) (np_cmp c a' b').
+Proof. exact cmp_array_refines. Qed.
+Print Assumptions C09_cmp_array_refines.
+
+(* ---------- indexing ---------- *)
+Theorem C09_get_int_refines : forall c v k, Rv c v -> (k < length c)%nat -> exists q, np_get1 v k = Ok q /\ getc c k == q.
+Proof. exact get_int_refines. Qed.
+Print Assumptions C09_get_int_refines.
+(* list, boolean mask and slice indices select the same positions on both sides ... *)
+Theorem C09_index_list_np : forall n ix, valid_index n ix ->
+  np_index_list n ix = Ok (index_list n ix) /\ Forall (fun i => (i < n)%nat) (index_list n ix).
+Proof. exact index_list_np. Qed.
+Print Assumptions C09_index_list_np.
+(* ... and reading them gives NumPy's values *)
+Theorem C09_get_idx_refines : forall c v idx, Rv c v -> Forall (fun i => (i < length c)%nat) idx ->
+  exists r, np_take v idx = Ok r /\ Forall2 Qeq (map (getc c) idx) r.
+Proof. exact get_idx_refines. Qed.
+Print Assumptions C09_get_idx_refines.
+(* writes: the result refines NumPy's, the size is kept and only the indexed cells change *)
+Theorem C09_set_int_refines : forall c v k q q', Rv c v -> q == q' -> (k < length c)%nat ->
+  exists r, set1 c k q = Ok r /\ Rv r (upd v k q') /\ length r = length c /\
+            forall j, j <> k -> nth_error r j = nth_error c j.
+Proof. exact set_int_refines. Qed.
+Print Assumptions C09_set_int_refines.
+Theorem C09_set_idx_refines : forall idx c v vals vals', Rv c v -> Forall2 Qeq vals vals' ->
+  Forall (fun i => (i < length c)%nat) idx ->
+  exists r r', set_zip c idx vals = Ok r /\ np_put v idx vals' = Ok r' /\ Rv r r' /\ length r = length c /\
+               forall j, ~ In j idx -> nth_error r j = nth_error c j.
+Proof. exact set_zip_refines. Qed.
+Print Assumptions C09_set_idx_refines.
+Theorem C09_set_idx_scalar_refines : forall idx c v q q', Rv c v -> q == q' -> Forall (fun i => (i < length c)%nat) idx ->
+  exists r r', set_all c idx q = Ok r /\ np_put v idx (repeat q' (length idx)) = Ok r' /\ Rv r r' /\ length r = length c /\
+               forall j, ~ In j idx -> nth_error r j = nth_error c j.
+Proof. exact set_all_refines. Qed.
+Print Assumptions C09_set_idx_scalar_refines.
+Theorem C09_set_open_refines : forall c v q q' d, Rv c v -> q == q' ->
+  (exists r, set_open c (SVScal q) = Ok r /\ Rv r (map (fun _ => q') v)) /\
+  (length d = length c -> set_open c (SVObj d) = Ok d).
+Proof. intros. split; [now apply set_open_scalar_refines | apply set_open_obj_refines]. Qed.
+Print Assumptions C09_set_open_refines.
+
+(* ---------- reductions ---------- *)
+Theorem C09_reductions_refine : forall c v, Rv c v ->
+  sv_any c = np_any v /\ sv_all c = np_all v /\ sv_sum c == np_sum v /\
+  (c <> [] -> exists q, np_mean v = Ok q /\ sv_mean c == q) /\
+  (c <> [] -> exists m m', sv_max c = Ok m /\ np_max v = Ok m' /\ m == m') /\
+  (c <> [] -> exists m m', sv_min c = Ok m /\ np_min v = Ok m' /\ m == m') /\
+  (forall q q', q == q' -> Rv (keep1 q) [q']).
+Proof.
+  intros c v H. repeat split; intros;
+    auto using any_refines, all_refines, sum_refines, mean_refines, max_refines, min_refines, keep1_refines.
+Qed.
+Print Assumptions C09_reductions_refine.
+
+(* ---------- logical vectors and row-wise array lifts ---------- *)
+Theorem C09_logic_refines : forall o a b, o <> LDiv -> (length a = 1%nat -> b <> []) -> lv_isparse o a b = np_logic o a b.
+Proof. exact logic_refines. Qed.
+Print Assumptions C09_logic_refines.
+(* a SparseArray against a vector / scalar / list is the vector kernel on every row, and rows refine rows *)
+Theorem C09_array_lift : forall a rows p, match p with PV _ | PS _ _ | PArr _ _ => True | _ => False end ->
+  array_bin false (BA a) (map VF rows) p = (do l <- mapM (rowk a p) rows; Ok (OA l false)) /\
+  (a <> Div -> array_ibin false (BA a) false (map VF rows) p = (do l <- mapM (rowk a p) rows; Ok (map VF l))).
+Proof. intros. split; [now apply array_bin_rows | intros; now apply array_ibin_rows]. Qed.
+Print Assumptions C09_array_lift.
+Theorem C09_rows_refine : forall (k : cells -> res cells) (g : list Q -> res (list Q)) rows rows',
+  (forall c c', Rv c c' -> refines (k c) (g c')) -> Forall2 Rv rows rows' ->
+  rrel (Forall2 Rv) (mapM k rows) (mapM g rows').
+Proof. exact rows_refine. Qed.
+Print Assumptions C09_rows_refine.
+
 (* ---------- division: partial ---------- *)
 (* full statement, refuted because 0/0 is 0 in the sparse code and an error for NumPy under seterr(invalid='raise') *)
 Theorem C09_div_refuted : ~ div_statement.
@@ -68,6 +146,24 @@ Proof.
   intros. repeat split; intros; eauto using truediv_sparse_same_ok, truediv_scalar_ok, truediv_array_same_ok.
 Qed.
 Print Assumptions C09_div_partial.
+(* full strength with the single deviation made explicit: np_div0 = NumPy's division with 0/0 := 0.
+   Every broadcasting branch of sparse / sparse, / scalar, / list refines it, errors included *)
+Theorem C09_div_sparse_refines : forall a a' b b', Rv a a' -> Rv b b' -> (length a = 1%nat -> b <> []) ->
+  refines (truediv_sparse a b) (np_div0 a' b').
+Proof. exact div_sparse_refines. Qed.
+Print Assumptions C09_div_sparse_refines.
+Theorem C09_div_scalar_refines : forall a a' k k', Rv a a' -> k == k' -> refines (truediv_scalar a k) (np_div0 a' [k']).
+Proof. exact div_scalar_refines. Qed.
+Print Assumptions C09_div_scalar_refines.
+Theorem C09_div_array_refines : forall a a' b b', Rv a a' -> Forall2 Qeq b b' -> b <> [] -> length b <> 1%nat ->
+  refines (truediv_array a b) (np_div0 a' b').
+Proof. exact div_array_refines. Qed.
+Print Assumptions C09_div_array_refines.
+(* and np_div0 is NumPy's own division wherever NumPy returns *)
+Theorem C09_div0_is_numpy_when_numpy_returns : forall a b v, np_arith Div a b = Ok v -> np_div0 a b = Ok v.
+Proof. exact np_div0_of_np. Qed.
+Print Assumptions C09_div0_is_numpy_when_numpy_returns.
+
 (* the kernels before pending_fixes/C09_1 and C09_2: an entry divided by zero was dropped; a -= a raised *)
 Theorem C09_legacy_div_drops_entry :
   truediv_sparse_legacy [Some 1; None; Some 2] [None; Some 1; Some 2] = Ok [None; None; Some (2 # 2)] /\
@@ -118,11 +214,22 @@ Theorem C09_readonly_vector_rejects : forall lg s i c o,
   xstep lg s o = (s, RErr EValue).
 Proof. exact readonly_vector_rejects. Qed.
 Print Assumptions C09_readonly_vector_rejects.
+(* spelled out per operator: += -= *= /= (&= ^= |=), clear(), v[...] = value, for every operand kind *)
+Theorem C09_readonly_vector_rejects_each_operator : forall lg s i c a,
+  nth_error s i = Some (OV c true) -> (forall j, a = AObj j -> (j < length s)%nat) ->
+  Forall (fun b => xstep lg s (XOp (OIBin b i a)) = (s, RErr EValue))
+         [BA Add; BA Sub; BA Mul; BA Div; BL LAnd; BL LXor; BL LOr] /\
+  xstep lg s (XOp (OClear i)) = (s, RErr EValue) /\
+  forall ix, xstep lg s (XOp (OSet i ix a)) = (s, RErr EValue).
+Proof. exact readonly_vector_rejects_each. Qed.
+Print Assumptions C09_readonly_vector_rejects_each_operator.
 Theorem C09_readonly_array_refuted : ~ readonly_array_statement.
 Proof. exact readonly_array_refuted. Qed.
 Print Assumptions C09_readonly_array_refuted.
 
-(* ---------- every history of fragment operations refines the NumPy history on the dense images ---------- *)
+(* ---------- every history of fragment operations refines the NumPy history on the dense images ----------
+   fragment (fop): + - * binary and in-place on float vectors and, row-wise, on float SparseArrays (operand vector /
+   scalar / list, aliasing allowed), + * & ^ | binary and in-place between logical vectors, neg, abs, copy, clear, setflags *)
 Theorem C09_history_refines : forall ops s d, sim s d -> frun s ops ->
   sim (fst (run false s ops)) (np_run d ops).
 Proof. exact history_refines. Qed.
@@ -153,7 +260,8 @@ Proof. exact mask_rows_refuted. Qed.
 Print Assumptions C09_mask_rows_refuted.
 
 (* ---------- non-vacuity ---------- *)
-Definition exS : store := [mkV [1; 0; 2] false; mkV [0; 1; -2] false; mkV [1 # 2] false; mkA [[1; 0; 0]; [0; 0; 3]]].
+Definition exS : store := [mkV [1; 0; 2] false; mkV [0; 1; -2] false; mkV [1 # 2] false; mkA [[1; 0; 0]; [0; 0; 3]];
+                           mkL [true; false; true]; mkL [false; false; true]].
 Example C09_ex_store_wf : store_wf exS.
 Proof. repeat constructor; cbn; try exact I; intro K; vm_compute in K; discriminate K. Qed.
 Example C09_ex_refines : Rv (of_dense [1; 0; 2]) [1; 0; 2] /\ Rv (of_dense [0; 1; -2]) [0; 1; -2] /\
@@ -177,4 +285,26 @@ Proof.
                           | eapply F_neg; vm_compute; reflexivity
                           | eapply F_clear; vm_compute; reflexivity ]
                   | vm_compute fst ] ]).
+Qed.
+(* a history through the array and logical parts of the fragment: A + b ; A *= 2 ; l ^ m ; l += m *)
+Definition exOps2 : list xop :=
+  [XOp (OBin (BA Add) 3 (AObj 1)); XOp (OIBin (BA Mul) 3 (AScal 2));
+   XOp (OBin (BL LXor) 4 (AObj 5)); XOp (OIBin (BA Add) 4 (AObj 5))].
+Example C09_ex_frun_arrays : frun exS exOps2.
+Proof.
+  unfold exOps2.
+  eapply frun_cons.
+  { eapply F_abin; [discriminate | vm_compute; reflexivity | discriminate |].
+    repeat constructor; cbn; repeat eexists; try (vm_compute; reflexivity); discriminate. }
+  vm_compute fst.
+  eapply frun_cons.
+  { eapply F_aibin; [discriminate | vm_compute; reflexivity | discriminate | repeat constructor |].
+    intros p Hp. vm_compute in Hp. inversion Hp; subst. repeat constructor. }
+  vm_compute fst.
+  eapply frun_cons.
+  { eapply (F_lbin _ (BL LXor) LXor); [reflexivity | discriminate | vm_compute; reflexivity | vm_compute; reflexivity | discriminate]. }
+  vm_compute fst.
+  eapply frun_cons.
+  { eapply (F_libin _ (BA Add) LAdd); [reflexivity | discriminate | vm_compute; reflexivity | vm_compute; reflexivity | left; reflexivity]. }
+  apply frun_nil.
 Qed.
